@@ -7,9 +7,9 @@
  *    at:M.socket#2=EMFILE        occurrence 2 of socket() on the loop thread fails once
  *    at:M.read#0=I3              occurrences 0,1,2 of read() fail with EINTR, then pass
  *    at:...;at:...               several of them
- *    seq:o,EENOMEM,i,o           the points reached inside the *armed region* of a
+ *    seq:o,ENOMEM,i,o            the points reached inside the *armed region* of a
  *                                unit scenario consume these answers in order
- *                                (o = pass through, i = EINTR once, E<name> = fail)
+ *                                (o = pass through, i = EINTR once, an errno name = fail)
  * In record mode (plan "-") nothing fails and every point is logged.
  */
 #ifndef C16_FAULT_H
@@ -68,6 +68,7 @@ static int fi_nfaults;
 static int fi_seq[MAXSEQ], fi_nseq, fi_seqpos, fi_useseq;
 static volatile int fi_on;          /* injection + counting window */
 static volatile int fi_armed;       /* armed region of a unit scenario */
+static const char* volatile fi_only; /* armed region: only points of this name consume answers */
 static int fi_record;
 static int fi_fired;                /* number of injected answers */
 static char fi_last[64];            /* last injected point */
@@ -119,11 +120,12 @@ static int fi_hit(const char* name, const char* attr) {
     if (f->k > 0) { if (idx >= f->idx && idx < f->idx + f->k) e = EINTR; }
     else if (idx == f->idx) e = f->err;
   }
-  if (fi_useseq && fi_armed && cls == 0) {
+  if (fi_useseq && fi_armed && cls == 0 && (!fi_only || !strcmp(fi_only, name))) {
     e = fi_seqpos < fi_nseq ? fi_seq[fi_seqpos] : 0;
     fi_seqpos++;
+    i = -1;
   }
-  if (fi_record || (fi_useseq && fi_armed && cls == 0)) {
+  if (fi_record || i == -1) {
     char t[160];
     snprintf(t, sizeof t, "%c.%s%s%s@%s%s%s ", cls ? 'W' : 'M', name, attr[0] ? ":" : "", attr,
              cls ? "-" : fi_api, e ? "=" : "", e ? name_of_err(e) : "");
@@ -194,14 +196,16 @@ static void fi_free(void* p) {
 }
 
 /* ---- wrapped calls ------------------------------------------------------ */
+static int fi_is_wakeup(int fd);    /* eventfd / signal pipes of the loop: defined by the harness */
 static const char* fd_attr(int fd) {
-  /* only evaluated when recording */
-  static __thread char a[4];
+  /* only evaluated when recording: n = non-blocking, s = socket, w = internal wake-up channel */
+  static __thread char a[6];
   struct stat st; int fl, n = 0;
   if (!fi_record || !fi_on) return "";
   fl = fcntl(fd, F_GETFL);
   if (fl != -1 && (fl & O_NONBLOCK)) a[n++] = 'n';
   if (fstat(fd, &st) == 0 && S_ISSOCK(st.st_mode)) a[n++] = 's';
+  if (fi_is_wakeup(fd)) a[n++] = 'w';
   a[n] = 0;
   return a;
 }
